@@ -45,3 +45,23 @@ def hook(put):
     X.one(r"\.o_name = NNG_OPT_RECVBUF,\s*\.o_get\s*= sub0_ctx_get_recv_buf_len", X.strip_comments(sub), "sub ctx option table: recv-buffer")
     X.one(r"\.o_name = NNG_OPT_SUB_PREFNEW,\s*\.o_get\s*= sub0_ctx_get_prefer_new", X.strip_comments(sub), "sub ctx option table: prefnew")
     X.one(r"\.o_name = NNG_OPT_SENDBUF,\s*\.o_get\s*= pub0_sock_get_sendbuf", X.strip_comments(pub), "pub option table: send-buffer")
+
+    # raw SUB (xsub.c) rests on the socket's upper read queue (nni_msgq)
+    xsub = X.src("src/sp/protocol/pubsub0/xsub.c")
+    sock = X.src("src/core/socket.c")
+    if _proto(xsub, "NNI_PROTO_PUB_V0", "xsub.c PUB proto id") != _proto(sub, "NNI_PROTO_PUB_V0", "sub.c PUB proto id"):
+        raise X.ExtractError("xsub.c and sub.c disagree on NNI_PROTO_PUB_V0")
+    X.one(r"nni_pipe_peer\(p->pipe\) != NNI_PROTO_PUB_V0", X.func_body(xsub, "xsub0_pipe_start"), "xsub0_pipe_start peer test")
+    X.one(r"nni_msgq_tryput\(urq, msg\) != 0", X.func_body(xsub, "xsub0_recv_cb"), "xsub0_recv_cb uses nni_msgq_tryput")
+    X.one(r"nni_msgq_aio_get\(s->urq, aio\)", X.func_body(xsub, "xsub0_sock_recv"), "xsub0_sock_recv uses nni_msgq_aio_get")
+    X.one(r"s->urq = nni_sock_recvq\(sock\)", X.func_body(xsub, "xsub0_sock_init"), "xsub0_sock_init: urq is the socket's recv queue")
+    m = X.one(r"nni_msgq_init\(&s->s_urq, (\d+)\)", sock, "socket urq default depth")
+    put("c05SockRecvqInit", int(m.group(1)), "core/socket.c nni_sock_create s_urq")
+    m = X.one(r"nni_copyin_int\(&len, buf, sz, (\d+), (\d+), t\)", X.func_body(sock, "sock_set_recvbuf"), "socket recv-buffer range")
+    put("c05SockRecvBufMin", int(m.group(1)), "core/socket.c sock_set_recvbuf nni_copyin_int range")
+    put("c05SockRecvBufMax", int(m.group(2)), "core/socket.c sock_set_recvbuf nni_copyin_int range")
+    X.one(r"nni_msgq_resize\(SOCK\(s\)->s_urq, len\)", X.func_body(sock, "sock_set_recvbuf"), "sock_set_recvbuf resizes s_urq")
+    mq = X.src("src/core/msgqueue.c")
+    X.one(r"mq->mq_len > \(\(unsigned\) cap \+ 1\)", X.func_body(mq, "nni_msgq_resize"), "nni_msgq_resize keeps cap + 1 messages")
+    X.one(r"if \(mq->mq_len < mq->mq_cap\)", X.func_body(mq, "nni_msgq_tryput"), "nni_msgq_tryput room test")
+
